@@ -31,11 +31,12 @@ Theorem C02_ip_check_family : forall plain f L src,
 Proof. exact ip_check_family. Qed.
 Print Assumptions C02_ip_check_family.
 
-(* The index table returns a keypair retained by the peer it names. *)
-Theorem C02_find_idx_owner : forall ps idx i0 i cur k,
-  find_idx ps idx i0 = Some (i, cur, k) ->
+(* The index table returns a keypair retained by the peer it names, in one of
+   its three slots (previous, current, next). *)
+Theorem C02_find_idx_owner : forall ps idx i0 i sl k,
+  find_idx ps idx i0 = Some (i, sl, k) ->
   i0 <= i /\ exists p, nth_error ps (N.to_nat (i - i0)) = Some p /\
-                       (if cur then k_cur p else k_prev p) = Some k /\ k_idx k = idx.
+                       get_slot p sl = Some k /\ k_idx k = idx.
 Proof. exact find_idx_owner. Qed.
 Print Assumptions C02_find_idx_owner.
 
@@ -45,9 +46,9 @@ Print Assumptions C02_find_idx_owner.
    longest-prefix match; and exactly the declared bytes are written. *)
 Theorem C02_tun_write_sound : forall st d st' r i w,
   recv1 st d = (st', r) -> r_write r = Some (i, w) ->
-  exists idx key ctr plain cur k f L src,
+  exists idx key ctr plain sl k f L src,
     d = Transport idx key false ctr plain /\
-    find_idx (s_peers st) idx 0 = Some (i, cur, k) /\
+    find_idx (s_peers st) idx 0 = Some (i, sl, k) /\
     k_age k <= RejectAfterTime /\ key = k_key k /\
     accept (k_filter k) ctr RejectAfterMessages = true /\
     ip_check plain = Some (f, L, src) /\ L = declared_len f plain /\ hdr_min f <= L /\ L <= blen plain /\
@@ -68,10 +69,10 @@ Print Assumptions C02_batch_writes_sound.
 Theorem C02_batch_writes_sound_full : forall l st st' rs,
   run recv1 st l = (st', rs) ->
   forall r i w, In r rs -> r_write r = Some (i, w) ->
-  exists pre post idx key ctr plain cur k f L src,
+  exists pre post idx key ctr plain sl k f L src,
     l = pre ++ Transport idx key false ctr plain :: post /\
     let s1 := final recv1 st pre in
-    find_idx (s_peers s1) idx 0 = Some (i, cur, k) /\
+    find_idx (s_peers s1) idx 0 = Some (i, sl, k) /\
     k_age k <= RejectAfterTime /\ key = k_key k /\
     accept (k_filter k) ctr RejectAfterMessages = true /\
     ip_check plain = Some (f, L, src) /\ L = declared_len f plain /\ hdr_min f <= L /\ L <= blen plain /\
@@ -96,8 +97,8 @@ Proof. exact at_most_one_write. Qed.
 Print Assumptions C02_at_most_one_write.
 
 (* Completeness: a message that meets all the conditions is written. *)
-Theorem C02_accepted_is_written : forall st idx key ctr plain i cur k f L src,
-  find_idx (s_peers st) idx 0 = Some (i, cur, k) ->
+Theorem C02_accepted_is_written : forall st idx key ctr plain i sl k f L src,
+  find_idx (s_peers st) idx 0 = Some (i, sl, k) ->
   k_age k <= RejectAfterTime -> key = k_key k ->
   accept (k_filter k) ctr RejectAfterMessages = true ->
   plain <> [] -> ip_check plain = Some (f, L, src) ->
@@ -138,6 +139,35 @@ Theorem C02_exactly_once_inv : forall key ctr st idx plain,
 Proof. exact exactly_once_inv. Qed.
 Print Assumptions C02_exactly_once_inv.
 
+(* Down/Up: after a restart no datagram under any pre-restart key is accepted,
+   and the state is not touched by such datagrams. *)
+Theorem C02_restart_drops_all : forall st d,
+  snd (recv1 (fst (step st Restart)) d) = nothing /\
+  fst (recv1 (fst (step st Restart)) d) = fst (step st Restart).
+Proof. exact restart_drops_all. Qed.
+Print Assumptions C02_restart_drops_all.
+
+(* ... and that stays so until a new handshake happens. *)
+Theorem C02_restart_then_only_new : forall st evs d,
+  (forall p i k, ~ In (Handshake p i k) evs /\ ~ In (HandshakeUnconf p i k) evs) ->
+  snd (recv1 (final step (fst (step st Restart)) evs) d) = nothing.
+Proof. exact restart_then_only_new. Qed.
+Print Assumptions C02_restart_then_only_new.
+
+(* A message under the responder's not yet confirmed key is accepted and
+   confirms it: previous := current, current := next, next := nil. *)
+Theorem C02_unconfirmed_key_accepts_and_promotes : forall st idx key ctr plain i k,
+  find_idx (s_peers st) idx 0 = Some (i, SNext, k) ->
+  k_age k <= RejectAfterTime -> key = k_key k ->
+  accept (k_filter k) ctr RejectAfterMessages = true ->
+  exists p p',
+    nth_error (s_peers st) (N.to_nat i) = Some p /\
+    nth_error (s_peers (fst (recv1 st (Transport idx key false ctr plain)))) (N.to_nat i) = Some p' /\
+    k_prev p' = k_cur p /\ k_next p' = None /\
+    exists k', k_cur p' = Some k' /\ k_idx k' = idx /\ k_key k' = key.
+Proof. exact unconfirmed_key_accepts_and_promotes. Qed.
+Print Assumptions C02_unconfirmed_key_accepts_and_promotes.
+
 (* ------------------------------------------------------------------ non-vacuity *)
 
 (* 28 bytes received, IPv4 header declaring 24 *)
@@ -156,7 +186,7 @@ Proof. vm_compute. reflexivity. Qed.
 (* one peer owning 10.0.0.0/8, no keypairs yet *)
 Definition c02_init : state :=
   {| s_tbl := [{| e_fam := V4; e_bits := 167772160; e_len := 8; e_owner := 0 |}];
-     s_peers := [{| k_prev := None; k_cur := None |}] |}.
+     s_peers := [{| k_prev := None; k_cur := None; k_next := None |}] |}.
 
 (* handshake, then the same datagram twice: exactly one write of the declared
    24 bytes, credited 28 + 32 bytes; the replay yields nothing *)
@@ -170,10 +200,10 @@ Proof. vm_compute. reflexivity. Qed.
 (* the premises of exactly_once are met by that trace *)
 Example C02_trace_premises :
   (holders 1 (final step c02_init [Handshake 0 77 1]) <= 1)%nat /\
-  fresh_keys 1 [Age 0 5; Handshake 0 78 2].
+  fresh_keys 1 [Age 0 5; Handshake 0 78 2; HandshakeUnconf 0 79 3].
 Proof.
   split; [vm_compute; lia|].
-  intros p idx k [E|[E|[]]]; [discriminate|]. inversion E; subst. discriminate.
+  intros p idx k [[E|[E|[E|[]]]]|[E|[E|[E|[]]]]]; try discriminate; inversion E; subst; discriminate.
 Qed.
 
 (* source outside the allowed prefix, tampering, wrong key: counted or dropped, never written *)
@@ -187,4 +217,27 @@ Example C02_trace_refusals :
      Age 0 180000000001;
      Dgrams [Transport 77 1 false 6 c02_pkt]]))
   = [None; None; None; None; None; None].
+Proof. vm_compute. reflexivity. Qed.
+
+(* restart: datagrams under the two pre-restart keys (confirmed 77/1, unconfirmed 88/2)
+   yield nothing; after a new handshake the new key works *)
+Example C02_trace_restart :
+  outs step c02_init
+    [Handshake 0 77 1; HandshakeUnconf 0 88 2; Restart;
+     Dgrams [Transport 77 1 false 1 c02_pkt; Transport 88 2 false 0 c02_pkt];
+     Handshake 0 99 3;
+     Dgrams [Transport 99 3 false 1 c02_pkt]]
+  = [ []; []; [];
+      [nothing; nothing];
+      [];
+      [ {| r_write := Some (0, firstn 24 c02_pkt); r_rx := Some (0, 60) |} ] ].
+Proof. vm_compute. reflexivity. Qed.
+
+(* without the restart the unconfirmed key is accepted (counter 0 is fresh: its
+   filter is empty) and promoted: the write happens and the old previous is gone *)
+Example C02_trace_unconfirmed :
+  map (map r_write) (outs step c02_init
+    [Handshake 0 77 1; HandshakeUnconf 0 88 2;
+     Dgrams [Transport 88 2 false 0 c02_pkt; Transport 88 2 false 0 c02_pkt; Transport 77 1 false 1 c02_pkt]])
+  = [ []; []; [Some (0, firstn 24 c02_pkt); None; Some (0, firstn 24 c02_pkt)] ].
 Proof. vm_compute. reflexivity. Qed.
